@@ -10,6 +10,7 @@ import (
 	"strings"
 	"sync"
 
+	"verif/checker/internal/effects"
 	"verif/checker/internal/load"
 	"verif/checker/internal/report"
 )
@@ -107,6 +108,7 @@ func runMutant(prop, name string) int {
 		out.Status, out.Detail = "error", "unknown property"
 		return emit()
 	}
+	effects.Of(prog) // same order as runProperty
 	defer func() {
 		if r := recover(); r != nil {
 			out.Status, out.Detail = "error", fmt.Sprint("panic: ", r)
@@ -197,7 +199,7 @@ func runControlsFor(id, tier string, baseline map[string]bool) []report.Control 
 				}
 				hit := ""
 				for _, k := range fresh {
-					if m.Kind != "break" || strings.Contains(k, m.Expect) {
+					if m.Kind != "break" || containsAny(k, m.Expect) {
 						hit = k
 						break
 					}
@@ -224,4 +226,16 @@ func lastLine(b []byte) []byte {
 		s = s[i+1:]
 	}
 	return []byte(s)
+}
+
+// containsAny: expect may list alternatives separated by "||" (one mutant can
+// surface under different obligations depending on which side of a rule the
+// property keeps).
+func containsAny(k, expect string) bool {
+	for _, e := range strings.Split(expect, "||") {
+		if strings.Contains(k, e) {
+			return true
+		}
+	}
+	return false
 }
